@@ -167,6 +167,8 @@ def rule_node_events(ctx: Ctx, out: Collector) -> None:
         delta = {
             ('q0', 'S'): 'q1', ('q0', 'P'): 'q5',
             ('q1', 'A'): 'qa',
+            # the execution fails before its first attempt (the configured retry policy cannot be instantiated): reported once
+            ('q1', 'Ce'): 'q3',
             # a forced default is produced without entering the attempt loop
             ('q1', 'K'): 'qf', ('q1', 'D'): 'q2', ('qf', 'K'): 'qf', ('qf', 'D'): 'q2', ('qf', 'Ce'): 'q3',
             ('qa', 'K'): 'qk', ('qa', 'B'): 'q2', ('qa', 'D'): 'q2', ('qa', 'Ce'): 'q3',
